@@ -378,12 +378,18 @@ def live_names(spec):
 
 
 @st.composite
-def quantity_edit(draw, spec, names=None):
+def quantity_edit(draw, spec, names=None, again=None):
+    """``again``: (obj, attr) pairs edited earlier in the history; re-editing one of them (accumulation, aliasing and
+    'second edit is lost' defects need the same input to change twice) is drawn with probability 0.3."""
     names = names or [n for n in live_names(spec) if S.quantity_inputs(spec["objs"][n]["cls"])]
-    n = draw(st.sampled_from(sorted(names)))
+    again = [x for x in (again or []) if x[0] in names]
+    if again and draw(st.floats(0, 1)) < 0.3:
+        n, a = draw(st.sampled_from(again))
+    else:
+        n = draw(st.sampled_from(sorted(names)))
+        a = draw(st.sampled_from(S.quantity_inputs(spec["objs"][n]["cls"])))
     e = spec["objs"][n]
     cls = e["cls"]
-    a = draw(st.sampled_from(S.quantity_inputs(cls)))
     cur = e.get(a) or S.default_quantity(cls, a)
     mode = draw(st.sampled_from(["factor", "factor", "fresh"]))
     if mode == "fresh":
@@ -562,11 +568,11 @@ def up_edit(draw, spec):
 
 
 @st.composite
-def simple_edit(draw, spec, weights=None):
+def simple_edit(draw, spec, weights=None, again=None):
     kinds = weights or ["q", "q", "q", "hourly", "tz", "choice", "link", "link", "list", "list"]
     k = draw(st.sampled_from(kinds))
     if k == "q":
-        return draw(quantity_edit(spec))
+        return draw(quantity_edit(spec, again=again))
     if k == "hourly":
         return draw(hourly_edit(spec))
     if k == "tz":
@@ -597,10 +603,10 @@ def group_edit(draw, spec):
 
 
 @st.composite
-def any_edit(draw, spec, mutators=True, noops=True):
+def any_edit(draw, spec, mutators=True, noops=True, again=None):
     k = draw(st.sampled_from(["simple"] * 6 + ["listop"] * 2 + ["up", "group"]))
     if k == "simple":
-        return draw(simple_edit(spec))
+        return draw(simple_edit(spec, again=again))
     if k == "listop":
         return draw(list_edit(spec, mutators=mutators, noops=noops))
     if k == "up":
@@ -609,7 +615,7 @@ def any_edit(draw, spec, mutators=True, noops=True):
 
 
 @st.composite
-def histories(draw, spec, min_steps=1, max_steps=8, undo_prob=0.15, mutators=True, noops=True):
+def histories(draw, spec, min_steps=1, max_steps=8, undo_prob=0.2, mutators=True, noops=True):
     """A list of edits, each drawn against the spec the previous ones lead to. Undo steps are explicit
     inverse edits tagged with ``undo_of``."""
     hist = []
@@ -625,7 +631,8 @@ def histories(draw, spec, min_steps=1, max_steps=8, undo_prob=0.15, mutators=Tru
                 cur = E.apply_spec(cur, inv)
                 hist.append(inv)
                 continue
-        e = draw(any_edit(cur, mutators=mutators, noops=noops))
+        again = sorted({(x["obj"], x["attr"]) for x in hist if x["op"] == "q"})
+        e = draw(any_edit(cur, mutators=mutators, noops=noops, again=again))
         before.append(cur)
         cur = E.apply_spec(cur, e)
         hist.append(e)
